@@ -8,13 +8,23 @@ mod cluster;
 mod driver;
 mod dump;
 mod entropy;
+mod idm_access;
+mod idm_auth;
+mod idm_oauth;
+mod idm_front;
+mod idm_lock;
+mod idm_reset;
+mod idm_roles;
+mod idm_token;
 mod mirror;
 mod rangeoracle;
 mod node;
 mod oracles;
 mod rng;
 mod search;
+mod sessions;
 mod storage;
+mod txnsched;
 
 use driver::{Scenario, Tier};
 
@@ -23,6 +33,16 @@ fn registry() -> Vec<Box<dyn Scenario>> {
     v.extend(cluster::scenarios());
     v.extend(search::scenarios());
     v.extend(storage::scenarios());
+    v.extend(txnsched::scenarios());
+    v.extend(idm_auth::scenarios());
+    v.extend(idm_oauth::scenarios());
+    v.extend(idm_roles::scenarios());
+    v.extend(idm_reset::scenarios());
+    v.extend(idm_lock::scenarios());
+    v.extend(idm_front::scenarios());
+    v.extend(idm_access::scenarios());
+    v.extend(sessions::scenarios());
+    v.extend(idm_token::scenarios());
     v
 }
 
